@@ -323,7 +323,7 @@ def c08_impl(case):
         # every symbolic operator of a variable (CanBehaveLikeAVariable): comparison, attribute access (an attribute that
         # WAS accessed inside a block before, and one that never was), indexing, calling, membership - all rejected outside
         # a block, none rejected inside one (2 = some are and some are not)
-        probes = (lambda: x == 1, lambda: x != 1, lambda: x < 1, lambda: x >= 1, lambda: x.a, lambda: x.never_seen,
+        probes = (lambda: x == 1, lambda: x != 1, lambda: x < 1, lambda: x >= 1, lambda: x <= 1, lambda: x > 1, lambda: x.a, lambda: x.never_seen,
                   lambda: x[0], lambda: x(), lambda: 1 in x, lambda: x.a.real)
         n_rej = 0
         for pr in probes:
